@@ -475,6 +475,17 @@ func refDAG(sp *Spec, path string, in any) *RefResult {
 			endDone = true
 			continue
 		}
+		if n := sp.Node(k); n != nil && n.Static != "" {
+			// a static value is part of the node's input in every run
+			m := map[string]any{}
+			if old, ok := inV.(map[string]any); ok {
+				for kk, vv := range old {
+					m[kk] = vv
+				}
+			}
+			m[n.Static] = "static"
+			inV = m
+		}
 		before := len(res.Execs)
 		o, fail := evalNode(res, sp.Node(k), path, inV)
 		execSpan[k] = [2]int{before, len(res.Execs)}
